@@ -52,7 +52,7 @@ func VerifyPageChecksum(page []byte, blockNumber uint32) ChecksumResult {
 	}
 	
 	// Check if page is all zeros (empty/unused)
-	if isZeroPage(page) {
+	if isZeroPage(page[:PageSize]) {
 		result.Valid = true
 		return result
 	}
